@@ -473,6 +473,10 @@ impl<S: Spec, C: flatcontainer::impls::index::IndexContainer<Idx<S>> + 'static> 
         if self.copied.len() < 1 {
             v.extend(0..self.values.len() as u32);
         }
+        if self.copied.is_empty() && self.caps.extend.is_some() && self.e.plain {
+            // many small extend calls without pre-sizing (800 + log2 n)
+            v.extend([806u32, 808, 810]);
+        }
         let nb = self.batches.len() as u32;
         for r in 0..6u32 {
             if r == 4 && self.caps.reserve_items.is_none() {
@@ -488,7 +492,10 @@ impl<S: Spec, C: flatcontainer::impls::index::IndexContainer<Idx<S>> + 'static> 
         v
     }
     fn describe(&self, op: OpId) -> String {
-        if op < 1000 {
+        if (800..900).contains(&op) {
+            return format!("{} separate extend calls of three values each, without pre-sizing", 1u32 << (op - 800));
+        }
+        if op < 800 {
             return format!("copy({})", S::show(&self.values[op as usize]));
         }
         let nb = self.batches.len() as u32;
@@ -506,7 +513,43 @@ impl<S: Spec, C: flatcontainer::impls::index::IndexContainer<Idx<S>> + 'static> 
     }
     fn step(&mut self, op: OpId) -> Step {
         let copy = self.caps.copy_ref.or(self.caps.copy_owned).unwrap();
-        if op < 1000 {
+        if (800..900).contains(&op) {
+            // O(log n) allocator calls per storage also when the items arrive in many small extend calls
+            self.done = true;
+            let n = 1usize << (op - 800);
+            let ext = self.caps.extend.unwrap();
+            let nv = self.values.len();
+            let batches: Vec<Vec<S::V>> = (0..n).map(|i| (0..3).map(|j| self.values[(i + j) % nv].clone()).collect()).collect();
+            let st = &mut self.st;
+            let res = guard(|| {
+                // the batches are moved in: no harness-side allocation inside the window
+                let a0 = alloc_count::calls();
+                for b in batches {
+                    ext(st, b);
+                }
+                alloc_count::calls() - a0
+            });
+            let calls = match res {
+                Ok(c) => c,
+                Err(p) => return Step::Violation(format!("extend panicked: {p}")),
+            };
+            let mut storages = 0u64;
+            let mut max_used = 2usize;
+            self.st.heap_size(|u, _| {
+                storages += 1;
+                max_used = max_used.max(u);
+            });
+            let log = (usize::BITS - (max_used - 1).leading_zeros()) as u64;
+            let bound = storages * (2 * log + 8);
+            if calls > bound {
+                return Step::Violation(format!(
+                    "{calls} allocator calls for {n} extend calls of three items; {storages} storages with at most {max_used} bytes each allow {bound} (O(log n) per storage)"
+                ));
+            }
+            self.tags.push(format!("stack-log:n{n}"));
+            return Step::Ok;
+        }
+        if op < 800 {
             let v = self.values[op as usize].clone();
             let st = &mut self.st;
             if let Err(p) = guard(|| copy(st, &v)) {
@@ -596,6 +639,72 @@ impl<S: Spec, C: flatcontainer::impls::index::IndexContainer<Idx<S>> + 'static> 
             return Step::Violation(format!("{calls} allocator calls while copying exactly the announced plain-data contents"));
         }
         self.tags.push(format!("stack-route{route}:batch{}", ids.len()));
+        Step::Ok
+    }
+    fn fingerprint(&self) -> Option<String> {
+        None
+    }
+    fn drain_tags(&mut self) -> Vec<String> {
+        std::mem::take(&mut self.tags)
+    }
+}
+
+// ---------------------------------------------------------------------------------------------
+// C18: no reported capacity shrinks at clear, also for one very large allocation (> 64 MiB)
+
+pub struct HugeClearMachine<S: Spec> {
+    make: fn(usize) -> S::V,
+    r: S::R,
+    stage: u8,
+    tags: Vec<String>,
+}
+
+impl<S: Spec> HugeClearMachine<S> {
+    pub fn new(make: fn(usize) -> S::V) -> Self {
+        HugeClearMachine { make, r: Default::default(), stage: 0, tags: vec![] }
+    }
+}
+
+impl<S: Spec> Machine for HugeClearMachine<S> {
+    fn name(&self) -> String {
+        format!("alloc/huge-clear/{}", S::name())
+    }
+    fn reset(&mut self) {
+        self.r = Default::default();
+        self.stage = 0;
+    }
+    fn enabled(&self) -> Vec<OpId> {
+        match self.stage {
+            0 => vec![0],
+            1 => vec![1],
+            _ => vec![],
+        }
+    }
+    fn describe(&self, op: OpId) -> String {
+        ["push one item of 72 MiB", "clear()"][op as usize].into()
+    }
+    fn step(&mut self, op: OpId) -> Step {
+        if op == 0 {
+            let v = (self.make)(72 << 20);
+            let r = &mut self.r;
+            let idx = match guard(|| S::canon_push(r, &v)) {
+                Ok(i) => i,
+                Err(p) => return Step::Violation(format!("push panicked: {p}")),
+            };
+            if let Err(e) = S::check(self.r.index(idx), &v) {
+                return Step::Violation(format!("the 72 MiB item does not read back: {e}"));
+            }
+            self.stage = 1;
+            return Step::Ok;
+        }
+        let before = caps(&self.r);
+        self.r.clear();
+        let after = caps(&self.r);
+        self.stage = 2;
+        if after.len() < before.len() || before.iter().zip(&after).any(|(b, a)| a < b) {
+            return Step::Violation(format!("after clear() a reported capacity shrank: {before:?} -> {after:?}"));
+        }
+        self.tags.push("huge-clear".into());
         Step::Ok
     }
     fn fingerprint(&self) -> Option<String> {
